@@ -58,6 +58,7 @@ type Opaque struct {
 	I    Int    // for d/u
 	F    Float  // for g/G/v
 	ID   int    // for unk
+	Str  []Int  // for q: the quoted string's bytes (quoting is injective)
 }
 
 // Bool is a Go bool, concrete or symbolic.
